@@ -318,6 +318,10 @@ def digraph_laps(rng, float_w=False):
             order += [(h, x), (x, y), (y, h)]; petals.append([h, x, y, h])
     if not petals:
         order.append((h, h)); petals.append([h, h])
+    exit_at = None
+    if len(petals) == 1 and len(petals[0]) > 2 and rng.random() < 0.4:
+        exit_at = petals[0][1]
+        order[1] = (exit_at, t)
     routes, weights = [], []
     for _ in range(rng.choice([1, 1, 2])):
         laps = rng.choice([2, 2, 3, 4])
@@ -325,15 +329,17 @@ def digraph_laps(rng, float_w=False):
         for pt in petals:
             for _ in range(laps):
                 r += pt[1:]
+        if exit_at is not None:
+            r.append(exit_at)       # leave from inside the petal: its first edge is taken once more than the others
         r.append(t)
         routes.append(r)
         weights.append(_w(rng, 3, float_w))
     flow = _flow_from_routes(routes, weights)
-    # the ignored entry / exit edges may carry anything
+    # the ignored entry / exit edges may carry anything, also values far above everything that is to be explained
     if rng.random() < 0.5:
-        flow[(s, h)] = rng.randint(0, 9)
+        flow[(s, h)] = rng.choice([rng.randint(0, 9), 50, 100])
     if rng.random() < 0.5:
-        flow[(h, t)] = rng.randint(0, 9)
+        flow[(exit_at or h, t)] = rng.choice([rng.randint(0, 9), 50, 100])
     rng.shuffle(order)
     nodes = []
     for a, b in order:
@@ -341,7 +347,7 @@ def digraph_laps(rng, float_w=False):
             if x not in nodes:
                 nodes.append(x)
     return {"kind": "digraph", "nodes": nodes, "edges": _edges_json(flow, order), "routes": routes, "weights": weights,
-            "zero_flow_edges": [], "entry_exit": [[s, h], [h, t]], "back_edges": [list(pt[-2:]) for pt in petals]}
+            "zero_flow_edges": [], "entry_exit": [[s, h], [exit_at or h, t]], "back_edges": [list(pt[-2:]) for pt in petals]}
 
 
 def digraph_cyclic(rng, max_nodes=5, max_edges=6, max_routes=3, wmax=5, max_rep=2, float_w=False, flower_p=0.3, zero_petal_p=0.2):
